@@ -260,6 +260,19 @@ fn classify_diff(f1: &str, f2: &str) -> &'static str {
     }
 }
 
+/// Shape class of a comment text, for signatures.
+fn comment_class(c: &str) -> &'static str {
+    if c.starts_with("//") {
+        if c.contains("/*") || c.contains("*/") { "line-comment-holding-block-delimiter" } else { "line-comment" }
+    } else if c.len() >= 4 && c.ends_with("**/") {
+        "block-comment-closed-by-star-run"
+    } else if c.starts_with("/**") {
+        "block-comment-opened-by-star-run"
+    } else {
+        "block-comment"
+    }
+}
+
 fn trailing_commas(tokens: &[String]) -> i64 {
     tokens
         .iter()
@@ -365,6 +378,10 @@ fn judge_c09(name: &str, input: &str, setting: &Setting, sab: &Sabotage) -> Case
     let lca = lex_comments_normalised(input);
     let lcb = lex_comments_normalised(&f1);
     r.count("lexer_crosscheck_tokens", la.len() as i64);
+    for (k, n) in comment_shape_counts(input) {
+        r.count(&k, n);
+    }
+    r.count("comments_found_by_independent_scan_of_original", lca.len() as i64);
     if real_ok {
         if let Some((k, a, b)) = first_diff(&la, &lb) {
             r.violation(
@@ -372,10 +389,21 @@ fn judge_c09(name: &str, input: &str, setting: &Setting, sab: &Sabotage) -> Case
                 format!("{head}: independent lexer sees a token change the parser's stream does not show, at token {k}: …{a}… vs …{b}…"),
                 replay(),
             );
-        } else if let Some((k, a, b)) = first_diff(&lca, &lcb) {
+        }
+        // comments: independent scan of the ORIGINAL text against independent scan of the
+        // formatted text (a comment the parser drops while parsing is missing from its stream on
+        // both sides, so only this comparison sees it)
+        if let Some((k, a, b)) = first_diff(&lca, &lcb) {
+            let kind = if lcb.len() < lca.len() { "lost" } else if lcb.len() > lca.len() { "gained" } else { "changed" };
+            let shape = lca.get(k).map(|c| comment_class(c)).unwrap_or("none");
             r.violation(
-                "lexcheck:comments".to_string(),
-                format!("{head}: independent lexer sees a comment change the parser's stream does not show, at comment {k}: …{a}… vs …{b}…"),
+                format!("lexcheck:comments:{kind}:{shape}"),
+                format!(
+                    "{head}: the original text holds {} comments (independent scan; the parser's own stream of the original lists {}), the formatted text {}; first difference at comment {k}: …{a}… vs …{b}…",
+                    lca.len(),
+                    fx.stream.comments.len(),
+                    lcb.len()
+                ),
                 replay(),
             );
         }
@@ -485,6 +513,10 @@ pub fn gen_input(corpus: &[vcommon::corpus::CorpusFile], seed: u64, tag: &str, j
         if (m / 2) % 2 == 0 {
             return (format!("synth-one-item-per-line#{m}"), text);
         }
+        if (m / 4) % 3 == 0 {
+            let p = *rng.pick(&[30u64, 120]);
+            return (format!("synth+comment-shapes#{m}"), mutate_comment_shapes(&text, &mut rng, p));
+        }
         let o = LayoutOpts::random(&mut rng);
         return (format!("synth+layout#{m}"), layout(&text, &mut rng, &o));
     }
@@ -510,6 +542,11 @@ pub fn gen_input(corpus: &[vcommon::corpus::CorpusFile], seed: u64, tag: &str, j
     if rng.chance(1, 4) {
         text = crate::alignsyn::mutate_strings(&text, &mut rng, 700);
         ops.push("strings");
+    }
+    if rng.chance(2, 5) {
+        let p = *rng.pick(&[15u64, 60, 150]);
+        text = mutate_comment_shapes(&text, &mut rng, p);
+        ops.push("comment-shapes");
     }
     if ops.is_empty() {
         let o = LayoutOpts { ws_permille: 900, insert_permille: 100, comment_permille: 40, multibyte: true, ..Default::default() };
